@@ -264,6 +264,12 @@ class Session(Thread):
             self._dispatch_error(TransportError('Session closed'))
         except Exception as e:
             self.logger.debug("Broke out of main loop, error=%r", e)
+            if isinstance(e, OSError):
+                # the socket or channel failed underneath us (reset, broken pipe,
+                # closed): callers are promised a TransportError
+                err = TransportError('Transport failed: %r' % e)
+                err.__cause__ = e
+                e = err
             self._dispatch_error(e)
             self.close()
 
